@@ -21,7 +21,7 @@ type c10Params struct {
 }
 
 func planWithoutFaults(pl Plan) Plan {
-	out := Plan{Peers: map[string]*PeerPlan{}, Sched: pl.Sched, RealPeers: pl.RealPeers}
+	out := Plan{Peers: map[string]*PeerPlan{}, Sched: pl.Sched, GoYields: pl.GoYields, RealPeers: pl.RealPeers}
 	for k, pp := range pl.Peers {
 		if pp == nil {
 			continue
@@ -698,6 +698,7 @@ func enumerateC10(c *Ctx, sc0 *Scenario) *enumResult {
 				sc.Plan.Peers[k].Chunks = []int{1}
 				sc.Plan.Peers[k].Yields = []int{1, 0, 2}
 			}
+			sc.Plan.GoYields = []int{0, 1, 0, 0, 2}
 		case 2:
 			for _, k := range peerKinds {
 				sc.Plan.Peers[k].PipeCap = 4096
